@@ -419,7 +419,15 @@ def _make_fields_iterator(
         public_attribs = [k for k in attribs if not k.startswith("_")]
     # If that didn't work, look for `__slots__`.
     if not public_attribs and hasattr(tp, "__slots__"):
-        public_attribs = [s for s in tp.__slots__ if not s.startswith("_")]
+        # Every class declares only the slots it adds: collect them base-first.
+        for klass in reversed(tp.__mro__):
+            declared = klass.__dict__.get("__slots__", ())
+            declared = (declared,) if isinstance(declared, str) else declared
+            public_attribs.extend(
+                s
+                for s in declared
+                if not s.startswith("_") and s not in public_attribs
+            )
     # If we located all public attributes, create a factory function for iterating over
     #   these fields and fetching the value from an instance.
     #   (A dataclass has exactly its declared fields, even if none of them is public:
